@@ -25,7 +25,8 @@ const (
 
 // targetPanic is a Go-level panic of the interpreted program.
 type targetPanic struct {
-	v value
+	v  value
+	at string
 }
 
 type fnInfo struct {
@@ -190,14 +191,11 @@ func asInt64(x value) int64 {
 // rtPanic raises a Go runtime panic in the target program.
 func (fr *frame) rtPanic(format string, args ...any) {
 	msg := "runtime error: " + fmt.Sprintf(format, args...)
-	panic(targetPanic{iface{t: fr.i.errType, v: msg}})
+	panic(targetPanic{iface{t: fr.i.errType, v: msg}, fr.stack()})
 }
 
 func (i *Interp) globalAddr(g *ssa.Global) *value {
 	if r, ok := i.globals[g]; ok {
-		if i.pkgState[g.Pkg] == 2 {
-			i.lazyInit(g.Pkg, g)
-		}
 		return r
 	}
 	i.lazyInit(g.Pkg, g)
@@ -205,19 +203,34 @@ func (i *Interp) globalAddr(g *ssa.Global) *value {
 }
 
 func (i *Interp) allocGlobals(pkg *ssa.Package) {
+	denied := !initAllowed(pkg.Pkg.Path())
 	for _, m := range pkg.Members {
 		if g, ok := m.(*ssa.Global); ok {
 			if _, ok := i.globals[g]; !ok {
-				cell := zero(deref(g.Type()))
+				var cell value
+				if denied {
+					// Globals of packages whose initialisers are not run are
+					// poison: they may be copied during initialisation but any
+					// later use aborts the path as unsupported.
+					cell = poisonVal{pkg.Pkg.Path() + "." + g.Name()}
+				} else {
+					cell = zero(deref(g.Type()))
+				}
 				i.globals[g] = &cell
+				if denied {
+					hostGlobal(i, g)
+				}
 			}
 		}
 	}
 }
 
+// poisonVal marks the value of a global whose package initialiser was not run.
+type poisonVal struct{ name string }
+
 func (i *Interp) lazyInit(pkg *ssa.Package, g *ssa.Global) {
 	st := i.pkgState[pkg]
-	if st == 1 {
+	if st == 1 || st == 2 {
 		return
 	}
 	if !initAllowed(pkg.Pkg.Path()) {
@@ -228,10 +241,9 @@ func (i *Interp) lazyInit(pkg *ssa.Package, g *ssa.Global) {
 			i.pkgState[pkg] = 2
 			return
 		}
-		if hostGlobal(i, g) {
-			return
-		}
-		panic(unsupported("global %s of un-initialised package %s", g.Name(), pkg.Pkg.Path()))
+		i.allocGlobals(pkg)
+		i.pkgState[pkg] = 2
+		return
 	}
 	i.runInit(pkg)
 }
@@ -354,7 +366,7 @@ func visitInstr(fr *frame, instr ssa.Instruction) continuation {
 		fr.runDefers()
 
 	case *ssa.Panic:
-		panic(targetPanic{fr.get(instr.X)})
+		panic(targetPanic{fr.get(instr.X), fr.stack()})
 
 	case *ssa.Send:
 		panic(unsupported("channel send"))
@@ -505,7 +517,7 @@ func visitInstr(fr *frame, instr ssa.Instruction) continuation {
 			panic(fmt.Sprintf("illegal map type: %T", fr.get(instr.Map)))
 		}
 		if m == nil {
-			panic(targetPanic{iface{t: fr.i.errType, v: "assignment to entry in nil map"}})
+			panic(targetPanic{iface{t: fr.i.errType, v: "assignment to entry in nil map"}, fr.stack()})
 		}
 		m.insert(fr, copyVal(fr.get(instr.Key)), fr.get(instr.Value))
 
